@@ -13,7 +13,8 @@ LEVEL = "exploration"
 RULE = ("Generated (policy in {LinGreedy(eps=0), LinUCB(alpha>=0), LinTS(alpha in {1e-9,1e-7,0.5,1})}, l2_lambda in "
         "{1, 0.25..100}, scale in {False with any split into fit + partial_fit*, True with a single fit}, d in 1..5, "
         "1..4 arms some with zero rows, optional add_arm after fit followed by partial_fit, m in 1..6 query rows) on "
-        "integer / half-integer grid contexts. Oracle: per arm, numpy.linalg.solve on the normal equations built "
+        "integer / half-integer / two-decimal real grid contexts (with scale=True one column in two cases is measured in "
+        "tiny units: spread 1e-4 or 1e-8 of the grid). Oracle: per arm, numpy.linalg.solve on the normal equations built "
         "from the raw history (per-arm standardised features when scale=True; zero coefficients and covariance "
         "I/lambda for a never-observed arm); expected x.beta, x.beta + alpha*sqrt(x'A^-1 x); LinTS: |out - x.beta| <= "
         "6*alpha*sqrt(x'A^-1 x) (+1e-9 relative), and the documented Cholesky sampler replayed on a clone of the arm "
